@@ -814,7 +814,7 @@ def run(ctx):
         "checked on the implementation (direct oracle), not proved (aggregate's model belongs to C08)",
         "Triangle(...) re-sorting of results is not modelled: results are compared as multisets of cells",
     ]
-    ctx.audit_tree(["Model/Units.v", "Proofs/UnitsP.v", "Props/C18.v", "GenProps/C18_fields.v"])
+    ctx.audit_tree(["Model/Units.v", "Proofs/UnitsP.v", "Proofs/UnitsQ.v", "Props/C18.v", "GenProps/C18_fields.v"])
     prove_static_local(ctx, "Props/C18.v")
 
     # ---------------------------------------------------------------- translator + generated obligations
